@@ -28,7 +28,7 @@ func (c14) ID() string { return "C14" }
 
 func (c14) Plan(tier string) fw.Plan {
 	p := fw.Plan{
-		Batches: 16, Cases: 500, TimeoutSec: 900, Level: "exploration",
+		Batches: 16, Cases: 2500, TimeoutSec: 900, Level: "exploration",
 		Rule: "one case = one graph of 1–8 linked blocks (keys incl. \"\", \"a/b\", \".\", \"..\", \"-1\", \"+1\", \"00\"; some links to missing blocks). (a) during an explore-all recursive walk and a random-selector walk every visit (P,N) is resolved from the root by Progress.Get, by Focus and by a harness-side stepwise descent (LookupBySegment one segment at a time, links loaded through the same link system); all must succeed and read out as N, and P is kept and resolved again after the walk has ended; (b) every position of the graph is enumerated from the nodes' own keys and indices (string- and int-built segments) and resolved the same three ways against a reference resolver over the abstract graph; (c) partially existing paths (valid prefix + missing key, index = length, negative and non-numeric segments on lists, one segment past a scalar, through a missing block) must fail exactly when the reference says so, with an error, never a panic; (d) for every path whose segments are non-empty and slash-free, ParsePath(p.String()) must give the same segments. Non-trivial: graph with ≥1 link and ≥6 positions; distinct by root hash.",
 		Assumptions: []string{"reference resolver internal to this file: maps by key, lists by strconv base-10 index, links dereferenced after each step (as Get documents), nothing below scalars"},
 		MinEvents:   []string{"graphs", "visits_resolved", "positions_enumerated", "error_paths_checked", "string_roundtrips", "kept_paths_rechecked", "resolutions_through_links"},
